@@ -200,6 +200,30 @@ Theorem update_keys_threshold_laws : forall valid, Laws valid s_update_keys_thre
 Proof. exact (fun valid => schema_codec_laws valid s_update_keys_threshold (@eq_refl bool true <: schema_wf s_update_keys_threshold = true)). Qed.
 Print Assumptions update_keys_threshold_laws.
 
+Theorem access_structure_laws : forall valid, Laws valid s_access_structure.
+Proof. exact (fun valid => schema_codec_laws valid s_access_structure (@eq_refl bool true <: schema_wf s_access_structure = true)). Qed.
+Print Assumptions access_structure_laws.
+
+Theorem higher_level_access_structure_laws : forall valid, Laws valid s_higher_level_access_structure.
+Proof. exact (fun valid => schema_codec_laws valid s_higher_level_access_structure (@eq_refl bool true <: schema_wf s_higher_level_access_structure = true)). Qed.
+Print Assumptions higher_level_access_structure_laws.
+
+Theorem authorizations_v0_laws : forall valid, Laws valid s_authorizations_v0.
+Proof. exact (fun valid => schema_codec_laws valid s_authorizations_v0 (@eq_refl bool true <: schema_wf s_authorizations_v0 = true)). Qed.
+Print Assumptions authorizations_v0_laws.
+
+Theorem root_update_laws : forall valid, Laws valid s_root_update.
+Proof. exact (fun valid => schema_codec_laws valid s_root_update (@eq_refl bool true <: schema_wf s_root_update = true)). Qed.
+Print Assumptions root_update_laws.
+
+Theorem level1_update_laws : forall valid, Laws valid s_level1_update.
+Proof. exact (fun valid => schema_codec_laws valid s_level1_update (@eq_refl bool true <: schema_wf s_level1_update = true)). Qed.
+Print Assumptions level1_update_laws.
+
+Theorem ar_info_laws : forall valid, Laws valid s_ar_info.
+Proof. exact (fun valid => schema_codec_laws valid s_ar_info (@eq_refl bool true <: schema_wf s_ar_info = true)). Qed.
+Print Assumptions ar_info_laws.
+
 (** ** Finding F4 (ConfigureBaker bitmap).  After the fix the decoder is the schema with mask
     0x01ff and is canonical: *)
 Theorem configure_baker_canonical : forall valid bs v rest,
